@@ -302,8 +302,69 @@ func managerScenario(c mgrConfig) func() func() []string {
 	}
 }
 
+// queueFullScenario: one request in progress on a node that never answers, ten more filling the
+// manager's request queue, and a twelfth AddRequest blocked inside the queue - then the shutdown
+// interrupt. The interrupt must reach the request in progress: Run returns, the blocked caller is
+// released, no downloader is left.
+func queueFullScenario() func() func() []string {
+	return func() func() []string {
+		proc := &recProc{}
+		store := &recStore{}
+		req := &fakeRequestor{script: []string{"silent"}, blocks: map[bitcoin.Hash32]*testBlock{}, active: map[bitcoin.Hash32]int{}}
+		var blocks []*testBlock
+		for i := 0; i < 12; i++ {
+			b := mkBlock(40+i, 1)
+			blocks = append(blocks, b)
+			req.blocks[b.hash] = b
+		}
+		bm := bitcoin_reader.NewBlockManager(store, req, 1, 5*time.Second)
+		req.bm, req.limit = bm, 1
+		interrupt := make(chan interface{})
+		runReturned, adderDone := false, false
+		added := 0
+		var interruptAt, returnedAt time.Time
+		vsched.GoNamed("manager", func() {
+			bm.Run(bg, interrupt)
+			returnedAt = vsched.Now()
+			runReturned = true
+		})
+		vsched.GoNamed("adder", func() {
+			for i, b := range blocks {
+				bm.AddRequest(bg, b.hash, 200+i, proc)
+				added++
+			}
+			adderDone = true
+		})
+		vsched.GoNamed("interrupter", func() {
+			vsched.Sleep(3 * time.Second) // the twelfth AddRequest is blocked by now
+			interruptAt = vsched.Now()
+			vsched.Close(interrupt)
+		})
+		return func() []string {
+			var problems []string
+			if !runReturned {
+				problems = append(problems, fmt.Sprintf("run-not-returned: BlockManager.Run did not return after the interrupt with its request queue full (%d of 12 AddRequest calls had returned)", added))
+			}
+			if runReturned && returnedAt.Sub(interruptAt) >= 2*time.Minute {
+				problems = append(problems, fmt.Sprintf("shutdown-stalled: BlockManager.Run returned %s after the interrupt with its request queue full (the interrupt did not reach the request in progress; it ended through the download's own timers)", returnedAt.Sub(interruptAt).Round(time.Second)))
+			}
+			if !adderDone {
+				problems = append(problems, fmt.Sprintf("add-request-blocked: the caller of AddRequest was never released (%d of 12 calls returned)", added))
+			}
+			for _, b := range blocks {
+				if n := bm.DownloaderCount(b.hash); n != 0 {
+					problems = append(problems, fmt.Sprintf("downloaders-left: %d downloaders still registered at quiescence", n))
+				}
+			}
+			label(fmt.Sprintf("added=%d run=%t", added, runReturned))
+			return problems
+		}
+	}
+}
+
 func managerScenarios(thorough bool) []*scenario {
 	var r []*scenario
+	r = append(r, &scenario{name: "manager/queue-full-12-requests+interrupt", bounds: []int{0, 1}, body: queueFullScenario(), steps: 50000})
 	configs := []mgrConfig{
 		{script: []string{"deliver"}, concurrent: 1, requests: 1},
 		{script: []string{"deliver"}, concurrent: 1, requests: 1, abort: true},
